@@ -1,7 +1,7 @@
 (** C04 -- Scheduler._add_to_archives and the routing loop of tell / tell_dqd as harness/py2v_sched.py reads them from the CURRENT
     source (Generated/SchedGen.v, rewritten on every run) against Model/Scheduler.v: the slice bounds are the model's, the
     statement-level facts are those the model renders; the lemmas say what two of the facts mean in the model. *)
-From Coq Require Import List Arith Bool.
+From Coq Require Import List Arith Bool Lia.
 From PV Require Import Base.ListUtil Base.SliceUtil Model.Store Model.Scheduler Model.SchedFacts Generated.SchedGen.
 Import ListNotations.
 
@@ -25,8 +25,34 @@ Theorem model_batch_same_data : forall n (data : list (column V)) (fb : nat -> F
   add_to_archives Batch n data fb None a r = (a ++ [AddBatch data], option_map (fun l => l ++ [AddBatch data]) r, Ok (map fb (seq 0 n))) /\
   forall k, add_to_archives Batch n data fb (Some k) a r = (a, r, Err ValueError).
 Proof. intros. split; reflexivity. Qed.
+
+(** the whole routing loop: the feedback slices handed to the emitters, concatenated in delivery order, are exactly the rows
+    [pos, pos + total emitted) of the feedback -- no row is delivered twice, none is skipped, none is reordered *)
+Lemma firstn_app_skipn : forall A (x : list A) m k, firstn m x ++ firstn k (skipn m x) = firstn (m + k) x.
+Proof.
+  intros A x m; revert x; induction m as [|m IH]; intros x k; [reflexivity|].
+  destruct x as [|a x]; [now rewrite !firstn_nil|]. cbn [firstn skipn plus app]. now rewrite IH.
+Qed.
+
+Lemma slice_app : forall A (l : list A) a m k, slice l a (a + m) ++ slice l (a + m) (a + m + k) = slice l a (a + m + k).
+Proof.
+  intros A l a m k. rewrite (slice_firstn_skipn l a m), (slice_firstn_skipn l (a + m) k).
+  rewrite <- Nat.add_assoc, (slice_firstn_skipn l a (m + k)).
+  rewrite <- (skipn_skipn l m a). apply firstn_app_skipn.
+Qed.
+
+Theorem gen_routing_tiles_feedback : forall (idxs nums : list nat) (pos : nat) (data : list (column V)) jac (info : list F),
+  concat (map (fun d => t_info (snd d)) (deliveries idxs nums pos data jac info)) =
+  slice info pos (pos + sum_nat (map (fun i => nth i nums 0) idxs)).
+Proof.
+  induction idxs as [|i t IH]; intros nums pos data jac info.
+  - cbn. unfold slice. replace (pos + 0 - pos) with 0 by lia. reflexivity.
+  - rewrite gen_slices_are_model. cbn [map concat snd sum_nat t_info mk_told]. rewrite IH.
+    unfold gen_slice_start, gen_slice_end, gen_next_pos. rewrite Nat.add_assoc. apply slice_app.
+Qed.
 End SchedRefine.
 
 Print Assumptions gen_sched_facts_are_model.
 Print Assumptions gen_slices_are_model.
 Print Assumptions model_batch_same_data.
+Print Assumptions gen_routing_tiles_feedback.
